@@ -565,6 +565,23 @@ func cursorKept(j *jobCtx, u Universe, path []Call) {
 			continue
 		}
 		emit(ev(merge(zero, Ev{"op": "Modified", "rs": 0, "seq": seq2, "keyed": cur.keyed, "rev": cur.reverse})))
+		// every other scenario: relative moves from the now unspecified position, each read after a successful move.  Where
+		// they lead is not specified (C08 does not judge them); they must still return, silently (C17: any interleaving)
+		if mi%2 == 0 {
+			rel := []string{"Next", "Next", "Next"}
+			if cur.reverse {
+				rel = [][]string{{"Next", "Next", "Prev", "Prev", "Prev"}, {"Prev", "Next", "Next", "Next"}, {"Next", "Next", "Next"}}[(mi/2)%3]
+			}
+			okRel := true
+			for _, s := range rel {
+				if okRel = do(curCall{op: s}); !okRel {
+					break
+				}
+			}
+			if !okRel {
+				continue
+			}
+		}
 		// rewind and walk
 		rw := rewinds[mi%len(rewinds)]
 		if !cur.reverse && (rw == "Last" || rw == "End") {
